@@ -273,7 +273,12 @@ def run_web(sc: dict):
             else:
                 s, a, p, q, f = split(start)
                 host, _, port = a.partition(":")
-                obj = urllib3.HTTPConnectionPool(host, int(port) if port else 80, timeout=5.0, **ctor_kw)
+                if cfg.get("pool_via") == "pool_kwargs":
+                    mgr = urllib3.PoolManager(timeout=5.0)
+                    obj = mgr.connection_from_url(origin_of(start), pool_kwargs=dict(ctor_kw))
+                    w.tags["keepalive_mgr"] = mgr
+                else:
+                    obj = urllib3.HTTPConnectionPool(host, int(port) if port else 80, timeout=5.0, **ctor_kw)
                 r = obj.request(cfg["method"], target_of(start), **req_kw)
             outcome = ("response", r.status, r)
         except (W.SimHang, W.StepLimit) as e:
@@ -348,7 +353,7 @@ def shrink_web(sc):
             c = copy.deepcopy(sc)
             del c["config"]["headers"][i]
             yield c
-    for fld, simple in (("body", None), ("method", "GET"), ("hdr_container", "dict"), ("redirect_kw", "unset"), ("placement", "request"), ("req_none", None), ("ctor_policy", "unset"), ("call", None)):
+    for fld, simple in (("body", None), ("method", "GET"), ("hdr_container", "dict"), ("redirect_kw", "unset"), ("placement", "request"), ("req_none", None), ("ctor_policy", "unset"), ("call", None), ("pool_via", None)):
         if cfg.get(fld, simple) != simple:
             c = copy.deepcopy(sc)
             c["config"][fld] = simple
